@@ -172,6 +172,7 @@ def run_history(res, exe, rng, first):
     script = []
     acc = cons = 0
     rv = [0x11]            # value of the object the synchronous RPDO writes
+    rp_valid = [True]
 
     def fail(key, msg, exp=None, obs=None):
         res.violation("c16/" + key, "node %d %d Hz 1005h=%x 1006h=%d tpdo type %d: %s | script: %s" % (nid, freq, cob0, cyc0, ttype, msg, "; ".join(script[-7:])),
@@ -366,10 +367,22 @@ def run_history(res, exe, rng, first):
                 res.counters["long_sync_runs"] += 1
             elif x < 0.88:
                 # received frame: SYNC or near miss; a fresh RPDO first in half of the cases
+                if rng.random() < 0.12 and m.mode in (PREOP, OP):
+                    # the synchronous RPDO (number 0, like the synchronous TPDO) is switched off / on between two SYNCs: the TPDO's
+                    # count of SYNCs is not its business
+                    rp_valid[0] = not rp_valid[0]
+                    v = (0x200 + nid) | (0 if rp_valid[0] else 0x80000000)
+                    script.append("write 1400:1 = %x" % v)
+                    code, _ = S.sdo_write(sim, nid, 0x1400, 1, v, 4)
+                    if code is not None:
+                        fail("rpdo-cobid-write-refused", "COB-ID valid toggle of the RPDO refused: %r" % code); return
+                    m.rpdo_pending = None
+                    res.counters["rpdo_switched_between_syncs"] += 1
                 if rng.random() < 0.5 and m.mode == OP:
                     pv = rng.getrandbits(8)
                     sim.rx(0x200 + nid, bytes([pv]))
-                    m.rpdo_pending = pv
+                    if rp_valid[0]:
+                        m.rpdo_pending = pv
                     script.append("rpdo %02x" % pv)
                 cid = rng.choice([m.sid(), m.sid(), m.sid(), m.sid() + 1, m.sid() - 1, 0x80, 0x100])
                 script.append("rx %x" % cid)
